@@ -401,11 +401,14 @@ Proof.
   pose proof wf_len as Hl.
   destruct (Z.leb_spec SEEK_LIMIT pos) as [E|_]; [rewrite SEEK_LIMIT_val in E; lia|].
   rewrite (stream_len_eq C); change (c_img C) with img. destruct (Z.leb_spec (zlen img) pos) as [E|_]; [lia|].
-  change (c_img C) with img.
-  assert (Hle : (Z.to_nat pos <= length img)%nat) by (unfold zlen in Hlt; lia).
-  destruct (skipn_split _ _ _ _ Ht Hle) as [Himg Hfl].
-  rewrite <- app_assoc in Himg. cbn [app] in Himg.
-  rewrite Himg at 1. rewrite <- Hfl at 2.
-  rewrite (parse_cstring_at_valid _ _ _ Hnn). reflexivity.
+  change (c_img C) with img. rewrite drop_skipn, Ht, <- app_assoc. cbn [app].
+  rewrite (cstr_chunks_valid _ _ _ Hnn); [reflexivity|].
+  assert (Hs : (length (fst x) < length img)%nat).
+  { assert (Hl' : (length (skipn (Z.to_nat pos) img) <= length img)%nat) by (rewrite skipn_length; lia).
+    rewrite Ht, !app_length in Hl'. cbn [length] in Hl'. lia. }
+  unfold CHUNK, zlen. pose proof (Z.div_mod (Z.of_nat (length img)) 64 ltac:(lia)) as Hdm.
+  pose proof (Z.mod_pos_bound (Z.of_nat (length img)) 64 ltac:(lia)) as Hmb.
+  assert (0 <= Z.of_nat (length img) / 64) by (apply Z.div_pos; lia).
+  lia.
 Qed.
 End WF.
